@@ -330,6 +330,19 @@ def class_jobs(seed, tier, start_run=1):
                 jobs.append({"run": runno, "scen": sc, "sched": [{"a": "htlc", "i": 1}], "drain": True, "tag": "class-raw", "payload": True,
                              "rand": {"seed": rng.getrandbits(40), "steps": 0}})
                 runno += 1
+    # invoices with a route hint that has no hops at all (the builder and the parser of such invoices accept them)
+    n0 = len(CLASS_INVS)
+    hinv = [{"hash": "h1", "amt": CLASS_A, "hops": ","}, {"hash": "h1", "amt": CLASS_A, "hops": "O,"},
+            {"hash": "h1", "amt": CLASS_A, "hops": ",L"}, {"hash": "h1", "amt": 0, "hops": ","}]
+    for k, spec in enumerate(hinv, 1):
+        for sh in (True, False):
+            cfg = dict(CFG_A); cfg["selfhints"] = sh
+            h = H("h1", n0 + k, 100, 100, cfg["h0"] + cfg["pdelta"] + 50, cfg["pdelta"] + 50,
+                  **({"decl": CLASS_A, "decl_len": -2} if spec["amt"] == 0 else {}))
+            sc = {"cfg": cfg, "invs": CLASS_INVS + hinv, "htlcs": [h], "probe": []}
+            jobs.append({"run": runno, "scen": sc, "sched": [{"a": "htlc", "i": 1}], "drain": True, "tag": "class-hint", "payload": True,
+                         "rand": {"seed": rng.getrandbits(40), "steps": 0}})
+            runno += 1
     return jobs
 
 def garbage_jobs(seed, n, start_run=1):
